@@ -113,9 +113,102 @@ let rec pr_ast (e : ast) : string =
 
 let pr_outcome pr = function Ok a -> pr a | Err -> "ERR" | Panic -> "PANIC" | Fuel -> "FUEL"
 
+(* ---------- values and scripts: prefix-free text syntax, recursive descent ---------- *)
+let rec pr_value (v : value) : string =
+  match v with
+  | VStr s -> "s(" ^ hex_of_str s ^ ")"
+  | VNum d -> pr_dec d
+  | VBool b -> if b then "b(1)" else "b(0)"
+  | VList l -> "l(" ^ String.concat ";" (List.map pr_value l) ^ ")"
+  | VMap l -> "m(" ^ String.concat ";" (List.map (fun (k, v) -> pr_value k ^ "=" ^ pr_value v) l) ^ ")"
+  | VNone -> "N"
+
+type cursor = { src : string; mutable pos : int }
+let peek c = if c.pos < String.length c.src then c.src.[c.pos] else '\000'
+let eat c ch = if peek c = ch then c.pos <- c.pos + 1 else failwith (Printf.sprintf "expected %c at %d in %s" ch c.pos c.src)
+let take_until c (stop : Stdlib.Char.t -> bool) : string =
+  let st = c.pos in
+  while c.pos < String.length c.src && not (stop c.src.[c.pos]) do c.pos <- c.pos + 1 done;
+  String.sub c.src st (c.pos - st)
+let is_hex ch = match ch with '0'..'9' | 'a'..'f' | 'A'..'F' -> true | _ -> false
+
+let rec p_value (c : cursor) : value =
+  match peek c with
+  | 'N' -> c.pos <- c.pos + 1; VNone
+  | 'n' ->
+    eat c 'n'; eat c '(';
+    let sg = take_until c (fun ch -> ch = ',') in eat c ',';
+    let m = take_until c (fun ch -> ch = ',') in eat c ',';
+    let sc = take_until c (fun ch -> ch = ')') in eat c ')';
+    let mant = n_of_hex m in
+    VNum { dneg = (sg = "1") && mant <> N0; dmant = mant; dscale = n_of_int (int_of_string sc) }
+  | 's' -> eat c 's'; eat c '('; let h = take_until c (fun ch -> ch = ')') in eat c ')'; VStr (str_of_hex h)
+  | 'b' -> eat c 'b'; eat c '('; let h = take_until c (fun ch -> ch = ')') in eat c ')'; VBool (h = "1")
+  | 'l' ->
+    eat c 'l'; eat c '(';
+    let items = ref [] in
+    if peek c = ')' then eat c ')' else begin
+      let continue = ref true in
+      while !continue do
+        items := p_value c :: !items;
+        if peek c = ';' then eat c ';' else (eat c ')'; continue := false)
+      done end;
+    VList (List.rev !items)
+  | 'm' ->
+    eat c 'm'; eat c '(';
+    let items = ref [] in
+    if peek c = ')' then eat c ')' else begin
+      let continue = ref true in
+      while !continue do
+        let k = p_value c in eat c '='; let v = p_value c in
+        items := (k, v) :: !items;
+        if peek c = ';' then eat c ';' else (eat c ')'; continue := false)
+      done end;
+    VMap (List.rev !items)
+  | ch -> failwith (Printf.sprintf "bad value at %d (%c) in %s" c.pos ch c.src)
+
+let p_field c = let f = take_until c (fun ch -> ch = '.') in eat c '.'; f
+
+let p_action (c : cursor) : action =
+  let k = peek c in c.pos <- c.pos + 1;
+  match k with
+  | 'P' -> AcParse (str_of_hex (p_field c))
+  | 'X' -> let ctx = p_field c in let src = p_field c in AcExec (str_of_hex src, n_of_int (int_of_string ctx))
+  | 'F' -> let nm = p_field c in let h = p_field c in AcRegF (str_of_hex nm, n_of_int (int_of_string h))
+  | 'U' -> let nm = p_field c in let h = p_field c in AcRegP (str_of_hex nm, n_of_int (int_of_string h))
+  | 'S' -> let nm = p_field c in let h = p_field c in AcRegS (str_of_hex nm, n_of_int (int_of_string h))
+  | 'I' ->
+    let nm = p_field c in let pr = p_field c in let se = p_field c in let ri = p_field c in let h = p_field c in
+    AcRegI (str_of_hex nm, z_of_hex pr, se = "1", ri = "1", n_of_int (int_of_string h))
+  | 'K' -> AcLock (n_of_int (int_of_string (p_field c)))
+  | _ -> failwith "bad action"
+
+let rec nat_of_int i = if i <= 0 then O else S (nat_of_int (i - 1))
+
+let rec p_script (c : cursor) : script =
+  let k = peek c in c.pos <- c.pos + 1;
+  match k with
+  | 'r' -> SRet (p_value c)
+  | 'a' -> SArg (nat_of_int (int_of_string (p_field c)))
+  | 'e' -> SFail
+  | 'p' -> SPanic
+  | 'q' -> let a = p_action c in let k = p_script c in SSeq (a, k)
+  | 'k' ->
+    eat c '[';
+    let items = ref [] in
+    let continue = ref true in
+    while !continue do
+      items := p_script c :: !items;
+      if peek c = ',' then eat c ',' else (eat c ']'; continue := false)
+    done;
+    SCount (List.rev !items)
+  | _ -> failwith "bad script"
+
+let value_of_string s = let c = { src = s; pos = 0 } in p_value c
+let script_of_string s = let c = { src = s; pos = 0 } in p_script c
+
 (* ---------- state of one history ---------- *)
-let builtin : optable ref = ref { t_infix = []; t_prefix = []; t_postfix = [] }
-let builtin_funcs : str list ref = ref []
+let builtins : registries ref = ref { r_infix = []; r_prefix = []; r_postfix = []; r_func = [] }
 
 let load_table (path : string) =
   let ic = open_in path in
@@ -124,49 +217,90 @@ let load_table (path : string) =
     let l = input_line ic in
     match String.split_on_char ' ' l with
     | ["I"; name; prec; setter; right] ->
-      infix := (str_of_hex name, { ic_prec = z_of_int (int_of_string prec); ic_setter = (setter = "1"); ic_right = (right = "1") }) :: !infix
-    | ["P"; name] -> prefix := str_of_hex name :: !prefix
-    | ["S"; name] -> postfix := str_of_hex name :: !postfix
-    | ["F"; name] -> funcs := str_of_hex name :: !funcs
+      infix := (str_of_hex name, ({ ic_prec = z_of_int (int_of_string prec); ic_setter = (setter = "1"); ic_right = (right = "1") }, HBuiltin)) :: !infix
+    | ["P"; name] -> prefix := (str_of_hex name, HBuiltin) :: !prefix
+    | ["S"; name] -> postfix := (str_of_hex name, HBuiltin) :: !postfix
+    | ["F"; name] -> funcs := (str_of_hex name, HBuiltin) :: !funcs
     | _ -> ()
   done with End_of_file -> close_in ic);
-  builtin := { t_infix = List.rev !infix; t_prefix = List.rev !prefix; t_postfix = List.rev !postfix };
-  builtin_funcs := List.rev !funcs
+  builtins := { r_infix = List.rev !infix; r_prefix = List.rev !prefix; r_postfix = List.rev !postfix; r_func = List.rev !funcs }
 
 let empty_keys = { k_unary = []; k_binary = []; k_postfix = []; k_function = []; k_reference = [];
                    k_ternary = false; k_list = false; k_map = false; k_chain = false }
 
-type hstate = { mutable tbl : optable; mutable keys : dkeys }
+type hstate = { mutable st : state; mutable keys : dkeys }
 
-let parse_full (st : hstate) (s : str) : string =
-  match api_parse st.tbl s with
-  | Ok e -> "OK:" ^ pr_ast e ^ ":" ^ hex_of_str (api_expr st.tbl e) ^ ":" ^ hex_of_str (api_describe st.tbl st.keys e)
-  | Err -> "ERR" | Panic -> "PANIC" | Fuel -> "FUEL"
+let tbl_now (h : hstate) : optable = api_tbl !builtins h.st
 
-let run_op (st : hstate) (op : string) : string =
+let pr_eres = function
+  | EOk v -> "OK:" ^ pr_value v | EErr -> "ERR" | EPanic -> "PANIC" | EDeadlock -> "DEADLOCK" | EFuel -> "FUEL" | EAbstain -> "ABSTAIN"
+
+let pr_log (st : state) : string =
+  "L[" ^ String.concat ";" (List.map (fun (h, args) -> string_of_int (int_of_n h) ^ "(" ^ String.concat "," (List.map pr_value args) ^ ")") (api_log st)) ^ "]"
+
+let pr_ctx (st : state) (c : n) : string =
+  let items = List.map (fun (nm, v) -> (hex_of_str nm, match v with CVar x -> pr_value x | CFunc h -> "F" ^ string_of_int (int_of_n h))) (api_ctx_dump st c) in
+  let items = List.sort compare items in
+  "C{" ^ String.concat ";" (List.map (fun (k, v) -> k ^ "=" ^ v) items) ^ "}"
+
+let split_n (s : string) (n : int) : string list =
+  (* split on ':' into at most n fields (the last keeps any further ':') *)
+  let rec go s k = if k <= 1 then [s] else
+    match String.index_opt s ':' with
+    | None -> [s]
+    | Some i -> String.sub s 0 i :: go (String.sub s (i + 1) (String.length s - i - 1)) (k - 1) in
+  go s n
+
+let run_op (h : hstate) (op : string) : string =
+  let b = !builtins in
   match String.split_on_char ':' op with
-  | ["LEX"; h] ->
-    let (ts, tm) = api_lex st.tbl (str_of_hex h) in
+  | ["LEX"; x] ->
+    let ((ts, tm), st) = api_h_lex b h.st (str_of_hex x) in
+    h.st <- st;
     "T[" ^ String.concat ";" (List.map pr_token ts) ^ "]:" ^ pr_term tm
-  | ["PARSE"; h] -> parse_full st (str_of_hex h)
-  | ["RT"; h] ->
-    (match api_parse st.tbl (str_of_hex h) with
+  | ["PARSE"; x] ->
+    let (r, st) = api_h_parse b h.st (str_of_hex x) in
+    h.st <- st;
+    (match r with
+     | Ok e -> let tbl = tbl_now h in
+       "OK:" ^ pr_ast e ^ ":" ^ hex_of_str (api_expr tbl e) ^ ":" ^ hex_of_str (api_describe tbl h.keys e)
+     | Err -> "ERR" | Panic -> "PANIC" | Fuel -> "FUEL")
+  | ["RT"; x] ->
+    let (r, st) = api_h_parse b h.st (str_of_hex x) in
+    h.st <- st;
+    (match r with
      | Ok e ->
-       let x = api_expr st.tbl e in
-       let second = match api_parse st.tbl x with
-         | Ok e2 -> "OK;" ^ pr_ast e2 ^ ";" ^ hex_of_str (api_expr st.tbl e2)
+       let tbl = tbl_now h in
+       let x = api_expr tbl e in
+       let second = match api_parse tbl x with
+         | Ok e2 -> "OK;" ^ pr_ast e2 ^ ";" ^ hex_of_str (api_expr tbl e2)
          | Err -> "ERR" | Panic -> "PANIC" | Fuel -> "FUEL" in
        "OK:" ^ pr_ast e ^ ":" ^ hex_of_str x ^ ":" ^ second
      | Err -> "ERR" | Panic -> "PANIC" | Fuel -> "FUEL")
-  | ["REGI"; name; prec; setter; right; _hid] ->
-    let cfg = { ic_prec = z_of_hex prec; ic_setter = (setter = "1"); ic_right = (right = "1") } in
-    st.tbl <- { st.tbl with t_infix = (str_of_hex name, cfg) :: st.tbl.t_infix }; "-"
-  | ["REGP"; name; _hid] -> st.tbl <- { st.tbl with t_prefix = str_of_hex name :: st.tbl.t_prefix }; "-"
-  | ["REGS"; name; _hid] -> st.tbl <- { st.tbl with t_postfix = str_of_hex name :: st.tbl.t_postfix }; "-"
+  | "H" :: hid :: rest ->
+    h.st <- api_def_script h.st (n_of_int (int_of_string hid)) (script_of_string (String.concat ":" rest)); "-"
+  | ["REGI"; name; prec; setter; right; hid] ->
+    let (_, st) = api_reg_infix b h.st (str_of_hex name) (z_of_hex prec) (setter = "1") (right = "1") (n_of_int (int_of_string hid)) in
+    h.st <- st; "-"
+  | ["REGP"; name; hid] -> let (_, st) = api_reg_prefix b h.st (str_of_hex name) (n_of_int (int_of_string hid)) in h.st <- st; "-"
+  | ["REGS"; name; hid] -> let (_, st) = api_reg_postfix b h.st (str_of_hex name) (n_of_int (int_of_string hid)) in h.st <- st; "-"
+  | ["REGF"; name; hid] -> let (_, st) = api_reg_function b h.st (str_of_hex name) (n_of_int (int_of_string hid)) in h.st <- st; "-"
+  | "CV" :: ctx :: name :: rest ->
+    h.st <- api_ctx_set h.st (n_of_int (int_of_string ctx)) (str_of_hex name) (CVar (value_of_string (String.concat ":" rest))); "-"
+  | ["CF"; ctx; name; hid] ->
+    h.st <- api_ctx_set h.st (n_of_int (int_of_string ctx)) (str_of_hex name) (CFunc (n_of_int (int_of_string hid))); "-"
+  | ["EXEC"; ctx; x] ->
+    let c = n_of_int (int_of_string ctx) in
+    let st0 = api_clear_log h.st in
+    let st0 = { st0 with s_inexact = false } in
+    let (r, st) = api_h_exec b st0 (str_of_hex x) c in
+    h.st <- st;
+    pr_eres r ^ ":" ^ pr_log st ^ ":" ^ pr_ctx st c ^ ":" ^ (if st.s_inexact then "I" else "E")
+  | ["CD"; ctx] -> pr_ctx h.st (n_of_int (int_of_string ctx))
   | ["SD"; kind; name] ->
     let n = str_of_hex name in
-    let k = st.keys in
-    st.keys <- (match kind with
+    let k = h.keys in
+    h.keys <- (match kind with
       | "U" -> { k with k_unary = n :: k.k_unary }
       | "B" -> { k with k_binary = n :: k.k_binary }
       | "P" -> { k with k_postfix = n :: k.k_postfix }
@@ -188,7 +322,7 @@ let () =
     match String.split_on_char ' ' line with
     | [] | [""] -> ()
     | id :: ops ->
-      let st = { tbl = !builtin; keys = empty_keys } in
-      let res = List.map (fun op -> try run_op st op with Failure m -> "?FAIL(" ^ m ^ ")" | Stack_overflow -> "?STACK") ops in
+      let h = { st = init_state; keys = empty_keys } in
+      let res = List.map (fun op -> try run_op h op with Failure m -> "?FAIL(" ^ m ^ ")" | Stack_overflow -> "?STACK") ops in
       print_string (id ^ " " ^ String.concat " " res ^ "\n")
   done with End_of_file -> ())
